@@ -583,7 +583,13 @@ fn gen_c05(r: &mut Rng, seed: u64) -> Scenario {
         let (ss, sl) = b.stacks.iter().find(|s| s.0 == blamed).map(|s| (s.1, s.2)).unwrap_or((b.stacks[0].1, b.stacks[0].2));
         let rsp = ss + sl - 0x40 - r.below(sl / 2 / 8) * 8;
         let exe = &b.modules[0];
-        let rip = exe.base + exe.image.text_off + 0x100 + r.below(0x500);
+        let rip = match r.below(6) {
+            0 => {
+                tags.push("ip-unmapped".into());
+                *r.pick(&[0x10u64, 0x9000_dead_beef, 0x7fff_ffff_f000])
+            }
+            _ => exe.base + exe.image.text_off + 0x100 + r.below(0x500),
+        };
         let mut cs = crash_spec(r, blamed, rsp, rip);
         // segment selectors packed as the kernel does: cs | gs << 16 | fs << 32
         cs.gregs[REG_CSGSFS] = (0x33u64 | (r.below(0x10000) << 16) | (r.below(0x10000) << 32) | (r.below(0x10000) << 48)) as i64;
@@ -2517,7 +2523,11 @@ pub fn generate(prop: &str, verif_seed: u64, idx: u64) -> Scenario {
                     let mut evs = Vec::new();
                     if evolve {
                         for _ in 0..r.below(3) {
-                            match r.below(4) {
+                            match r.below(5) {
+                                4 => {
+                                    // the blamed thread stops being attachable (another tracer takes it)
+                                    evs.push(EventKind::ForeignTracer { tid: p.opts.blamed, on: true });
+                                }
                                 0 if tids.len() > 1 => {
                                     let t = *r.pick(&tids[1..]);
                                     if t != p.opts.blamed {
